@@ -9315,7 +9315,8 @@ class SVG(Group):
                         else:
                             values[SVG_ATTR_TRANSFORM] = viewport_transform
                         values["viewport_transform"] = values[SVG_ATTR_TRANSFORM]
-                        width, height = s.viewbox.width, s.viewbox.height
+                        if s.viewbox.width is not None and s.viewbox.height is not None:
+                            width, height = s.viewbox.width, s.viewbox.height
                     if context is None:
                         stack[-1] = (context, values, width, height)
                     if context is not None:
